@@ -228,4 +228,18 @@ RECIPES = {
                 "spec/Features.tla",
         "assumptions": COMMON_ASSUME + ["the compiler decides the feature clause; TLA+ carries the expectation table"],
     },
+    "C19": {
+        "level": "model_checking",
+        "families": {"quick": [("abi", 1, 1)], "thorough": [("abi", 1, 1)]},
+        "reasons": ("value", "panic"),
+        "tags": ["abi_const", "abi_struct", "to_str", "to_string"],
+        "technique": "explicit TLA+ specification (reference table AbiRef.tla + structure layouts Abi.tla) + TLC trace validation of the compiled constants, struct layouts and to_str results",
+        "rule": "every pub const of abi.rs with its compiled value vs the reference table (glibc elf.h + LLVM BinaryFormat, "
+                "conflicting names left out; names the reference lacks are counted as unchecked), size_of/offset_of of the 16 "
+                "C-layout structs vs Abi.tla, every to_str helper over its whole domain (u8, u16) or over all constant values "
+                "+-1 and random values (u32, i64): a produced name must be an exported constant of that value; to_string "
+                "falls back to text containing the number",
+        "assumptions": COMMON_ASSUME + ["note_abi_tag_os_to_str and the *_human_str helpers produce prose, not symbolic names, and are out of scope",
+                                        "the reference table was extracted once from the headers on this image by tools/mk_abiref.py and is committed"],
+    },
 }
